@@ -383,7 +383,39 @@ def entry_points(dtype=np.float64, seed=0):
     simple("parafac_mask_svd", lambda X, m: parafac(X, R, n_iter_max=3, mask=m, init="svd", svd_mask_repeats=2), lambda d: (d.X, d.mask))
     simple("parafac_mask_notol", lambda X, m: parafac(X, R, n_iter_max=3, mask=m, tol=0, init="random", random_state=sd), lambda d: (d.X, d.mask))
     simple("parafac_sparsity", lambda X: parafac(X, R, n_iter_max=3, sparsity=0.1, init="random", random_state=sd), lambda d: (d.X,))
-    PK = ("KParafac", [0, 1, 2, 3])
+    def _optnat(x):
+        return "None" if x is None else f"(Some {int(x)}%nat)"
+
+    def pk_name(args):          # parafac(tensor, init, fixed_modes, mask): order-generic skeleton of Model/Effects.v
+        N = args[0].ndim
+        fixed = list(args[2]) if args[2] is not None else []
+        rm = fixed.index(N - 1) if (N - 1 in fixed and fixed != list(range(N))) else None
+        eff = [m for i, m in enumerate(fixed) if i != rm]
+        modes = [] if fixed == list(range(N)) else [m for m in range(N) if m not in eff]
+        return f"(KParafacN {N}%nat 2%nat {len(fixed)}%nat {_optnat(rm)} {C.nat_list(modes)})"
+
+    def hk_name(args):          # non_negative_parafac_hals(tensor, init, sparsity_coefficients, fixed_modes)
+        N = args[0].ndim
+        sclen = len(args[2]) if isinstance(args[2], (list, tuple)) else 0
+        fixed = list(args[3]) if args[3] is not None else []
+        modes = [m for m in range(N) if m not in fixed]
+        return f"(KHalsN {N}%nat 2%nat {sclen}%nat {len(fixed)}%nat {C.nat_list(fixed)} {C.nat_list(modes)})"
+
+    def tk_name(args):          # tucker(tensor, init, mask)
+        N = args[0].ndim
+        return f"(KTuckerN {N}%nat 2%nat {C.nat_list(range(N))})"
+
+    def prw_name(args):         # process_regularization_weights(ridge, sparsity): which entries the code assigns
+        r, sp = list(args[0]), list(args[1])
+        nr = [i for i, v in enumerate(r) if v is None]
+        ns = [i for i, v in enumerate(sp) if v is None]
+        r = [0 if v is None else v for v in r]
+        sp = [0 if v is None else v for v in sp]
+        dg = [i for i in range(len(r)) if any(sp) and abs(sp[i]) + abs(r[i]) == 0]
+        mx = sp.index(max(sp)) if sp else 0
+        return f"(KPrw {C.nat_list(nr)} {C.nat_list(ns)} {C.nat_list(dg)} {mx}%nat)"
+
+    PK = (pk_name, [0, 1, 2, 3])
     simple("parafac_init_tuple", lambda X, i, fm, m: parafac(X, R, n_iter_max=2, init=i, fixed_modes=fm, mask=m), lambda d: (d.X, (d.w, d.fs), None, None), skel=PK)
     simple("parafac_init_tuple_unitw", lambda X, i, fm, m: parafac(X, R, n_iter_max=2, init=i, fixed_modes=fm, mask=m), lambda d: (d.X, (d.w1, d.fs), None, None), skel=PK)
     simple("parafac_init_tuple_tuple", lambda X, i, fm, m: parafac(X, R, n_iter_max=2, init=i, fixed_modes=fm, mask=m), lambda d: (d.X, (d.w, tuple(d.fs)), None, None), skel=PK)
@@ -414,7 +446,7 @@ def entry_points(dtype=np.float64, seed=0):
     simple("nn_parafac_init", lambda X, i: non_negative_parafac(X, R, n_iter_max=2, init=i), lambda d: (d.X, (d.w, d.fs)))
     simple("nn_parafac_init_cptensor_fixed_mask", lambda X, i, fm, m: non_negative_parafac(X, R, n_iter_max=3, init=i, fixed_modes=fm, mask=m, normalize_factors=True), lambda d: (d.X, cpt(d), [0, 2], d.mask))
     simple("nn_parafac_init_fail_cvg", lambda X, i, fm: non_negative_parafac(X, R, n_iter_max=4, init=i, fixed_modes=fm, cvg_criterion="bogus"), lambda d: (d.X, (d.w, d.fs), [1, 2]))
-    HK = ("KNnParafacHals", [0, 1, 2, 3])
+    HK = (hk_name, [0, 1, 2, 3])
     simple("nn_parafac_hals", lambda X: non_negative_parafac_hals(X, R, n_iter_max=3, init="random", random_state=sd), lambda d: (d.X,))
     simple("nn_parafac_hals_init", lambda X, i, sc, fm: non_negative_parafac_hals(X, R, n_iter_max=2, init=i, sparsity_coefficients=sc, fixed_modes=fm), lambda d: (d.X, (d.w, d.fs), None, None), skel=HK)
     simple("nn_parafac_hals_init_unitw", lambda X, i, sc, fm: non_negative_parafac_hals(X, R, n_iter_max=2, init=i, sparsity_coefficients=sc, fixed_modes=fm), lambda d: (d.X, (d.w1, d.fs), None, None), skel=HK)
@@ -438,7 +470,7 @@ def entry_points(dtype=np.float64, seed=0):
     simple("symmetric_power_iteration", lambda X: symmetric_parafac_power_iteration(X, R, n_repeat=2, n_iteration=2), lambda d: (d.rs.rand(3, 3, 3).astype(dtype),))
     simple("cmtf", lambda X, Mx: coupled_matrix_tensor_3d_factorization(X, Mx, R, n_iter_max=3), lambda d: (d.X, d.rs.rand(4, 3).astype(dtype)))
     # ---------------------------------------------------------------- Tucker
-    TK = ("KTucker", [0, 1, 2])
+    TK = (tk_name, [0, 1, 2])
     simple("tucker", lambda X: tucker(X, [2, 2, 2], n_iter_max=3), lambda d: (d.X,))
     simple("tucker_random", lambda X: tucker(X, [2, 2, 2], n_iter_max=3, init="random", random_state=sd), lambda d: (d.X,))
     simple("tucker_mask", lambda X, m: tucker(X, [2, 2, 2], n_iter_max=3, mask=m), lambda d: (d.X, d.mask))
@@ -618,7 +650,7 @@ def entry_points(dtype=np.float64, seed=0):
     simple("base_unfold_fold", lambda X: (tl.unfold(X, 1), tl.fold(tl.unfold(X, 1), 1, X.shape), tl.tensor_to_vec(X), tl.partial_unfold(X, 0, 1), tl.partial_tensor_to_vec(X, 1)), lambda d: (d.X,))
     simple("index_update", lambda X, v: tl.index_update(X, tl.index[:, 1, :], v), lambda d: (d.X, d.rs.rand(4, 5).astype(dtype) + 2), inplace=[0])
     simple("backend_copy_ops", lambda X: (tl.copy(X), tl.abs(X), tl.clip(X, 0.2, 0.8), tl.sort(X, axis=1), tl.flip(X, axis=0), tl.reshape(X, (-1,)), tl.transpose(X), tl.moveaxis(X, 0, -1), tl.cumsum(X, axis=0), tl.where(X > 0.5, X, 0 * X)), lambda d: (d.X,))
-    simple("backend_linalg", lambda A, b: (tl.solve(A, b), tl.lstsq(A, b), tl.qr(A), tl.eigh(A), tl.norm(A, 2), tl.kr([b, b])), lambda d: (d.UtU + np.eye(4, dtype=dtype), d.UtM))
+    simple("backend_linalg", lambda A, b: (tl.solve(A, b), tl.lstsq(A, b), tl.qr(A), tl.eigh(A), tl.norm(A, 2)), lambda d: (d.UtU + np.eye(4, dtype=dtype), d.UtM))
     # ---------------------------------------------------------------- random, sampling, metrics, preprocessing
     simple("random_cp", lambda: tlr.random_cp((3, 4, 2), 2, random_state=sd, dtype=dtype), lambda d: ())
     simple("random_shapes_as_lists", lambda s, r: (tlr.random_tucker(s, r, random_state=sd), tlr.random_tt(s, [1, 2, 2, 1], random_state=sd), tlr.random_tr(s, [2, 2, 2, 2], random_state=sd)), lambda d: ([3, 4, 2], [2, 2, 2]))
@@ -633,8 +665,8 @@ def entry_points(dtype=np.float64, seed=0):
     simple("entropy", lambda M, cp: (vonneumann_entropy(M), cp_vonneumann_entropy(cp)), lambda d: (d.UtU / np.trace(d.UtU), CPTensor((d.w / d.w.sum(), [np.linalg.qr(d.rs.rand(4, R))[0].astype(dtype)] * 2))))
     simple("compress", lambda sl: svd_compress_tensor_slices(sl, max_rank=3), lambda d: (d.slices,))
     simple("compress_threshold_tensor", lambda X: svd_compress_tensor_slices(X, compression_threshold=0.1), lambda d: (d.X,))
-    simple("decompress", lambda p, lm: svd_decompress_parafac2_tensor(p, lm), lambda d: (lambda p: (p, [d.rs.rand(6, p[2][i].shape[0]).astype(dtype) for i in range(3)]))(p2t(d)))
-    simple("decompress_none_obj", lambda p, lm: svd_decompress_parafac2_tensor(p, lm), lambda d: (lambda p: (Parafac2Tensor(p), [None, d.rs.rand(6, p[2][1].shape[0]).astype(dtype), None]))(p2t(d)))
+    simple("decompress", lambda p, lm: svd_decompress_parafac2_tensor(p, lm), lambda d: (lambda p: (p, [np.linalg.qr(d.rs.rand(6, p[2][i].shape[0]))[0].astype(dtype) for i in range(3)]))(p2t(d)))
+    simple("decompress_none_obj", lambda p, lm: svd_decompress_parafac2_tensor(p, lm), lambda d: (lambda p: (Parafac2Tensor(p), [None, np.linalg.qr(d.rs.rand(6, p[2][1].shape[0]))[0].astype(dtype), None]))(p2t(d)))
     # ---------------------------------------------------------------- round 2: the rest of the public surface
     from tensorly.base import vec_to_tensor, partial_fold, partial_vec_to_tensor, matricize
     from tensorly.contrib.decomposition._tt_cross import maxvol
@@ -660,21 +692,21 @@ def entry_points(dtype=np.float64, seed=0):
     from tensorly.solvers.penalizations import process_regularization_weights
 
     PRW = "tensorly.solvers.penalizations.process_regularization_weights"
-    PW = ("KProcRegWeights", [0, 1])
+    PW = (prw_name, [0, 1])
     simple("process_regularization_weights_none_entries", lambda r, sp: process_regularization_weights(r, sp, 3), lambda d: ([None, 0.5, None], [0.1, None, None]), skel=PW, ep=PRW)
-    simple("process_regularization_weights_degenerate", lambda r, sp: process_regularization_weights(r, sp, 3), lambda d: ([0, 0, 0], [0.1, 0, 0.3]), skel=("KProcRegWeightsRidge", [0, 1]), ep=PRW)
-    simple("process_regularization_weights_plain_lists", lambda r, sp: process_regularization_weights(r, sp, 4), lambda d: ([0, 0, 2, 0], [1, 2, 0, 4]), skel=("KProcRegWeightsPlain", [0, 1]), ep=PRW)
+    simple("process_regularization_weights_degenerate", lambda r, sp: process_regularization_weights(r, sp, 3), lambda d: ([0, 0, 0], [0.1, 0, 0.3]), skel=PW, ep=PRW)
+    simple("process_regularization_weights_plain_lists", lambda r, sp: process_regularization_weights(r, sp, 4), lambda d: ([0, 0, 2, 0], [1, 2, 0, 4]), skel=PW, ep=PRW)
     simple("process_regularization_weights_scalars", lambda r, sp: process_regularization_weights(r, sp, 3), lambda d: (None, 0.1), ep=PRW)
     simple("process_regularization_weights_scalar_and_list", lambda r, sp: process_regularization_weights(r, sp, 3), lambda d: (0.5, [0.1, 0.2, 0.3]), ep=PRW)
     simple("base_fold_family", lambda v, M, P_: (vec_to_tensor(v, (3, 4, 5)), partial_fold(M, 0, (4, 3, 5), skip_begin=1), partial_vec_to_tensor(P_, (4, 3, 5)), matricize(tl.reshape(v, (3, 4, 5)), [0, 2], [1]), matricize(tl.reshape(v, (3, 4, 5)), [1])),
            lambda d: (d.rs.rand(60).astype(dtype), d.rs.rand(4, 3, 5).astype(dtype), d.rs.rand(4, 15).astype(dtype)))
     simple("maxvol", lambda A: maxvol(A), lambda d: (d.M,))
-    simple("tensor_train_OI", lambda X, r: tensor_train_OI(X, r, n_iter=2), lambda d: (d.X, [1, 2, 2, 1]))
+    simple("tensor_train_OI", lambda X, r: tensor_train_OI(X, r, n_iter=1), lambda d: (d.X, [1, 2, 2, 1]))
     simple("tensor_train_OI_trajectory", lambda X, r: tensor_train_OI(X, r, n_iter=1, trajectory=True), lambda d: (d.X, (1, 2, 2, 1)))
     simple("initialize_constrained_user", lambda X, i: initialize_constrained_parafac(X, R, init=i, non_negative=True), lambda d: (d.X, (d.w, d.fsn)))
     simple("initialize_constrained_user_cptensor_l1", lambda X, i: initialize_constrained_parafac(X, R, init=i, l1_reg=0.4), lambda d: (d.X, cpt(d)))
     simple("initialize_constrained_user_list_simplex", lambda X, i: initialize_constrained_parafac(X, R, init=i, simplex=1.0), lambda d: (d.X, [d.w, d.fs]))
-    simple("ConstrainedCP_class_init", lambda X, i, fm: ConstrainedCP(R, n_iter_max=2, init=i, fixed_modes=fm, non_negative=True).fit_transform(X), lambda d: (d.X, (d.w, d.fsn), [0, 2]))
+    simple("ConstrainedCP_class_init", lambda X, i, fm: ConstrainedCP(R, n_iter_max=2, init=i, fixed_modes=fm, non_negative=True).fit_transform(X), lambda d: (d.X, (d.w, d.fs), [0, 2]))
     simple("constrained_init_unimodal_fixed_last", lambda X, i, fm: constrained_parafac(X, R, n_iter_max=2, init=i, fixed_modes=fm, unimodality=True), lambda d: (d.X, (d.w, d.fs), [1, 2]))
     simple("constrained_init_hardsparse_normalize", lambda X, i, hs: constrained_parafac(X, R, n_iter_max=2, init=i, hard_sparsity=hs), lambda d: (d.X, (d.w1, d.fs), [2, 2, 2]))
     simple("sparsify_tensor", lambda X: (sparsify_tensor(X, 7), sparsify_tensor(X, 10 ** 6)), lambda d: (d.X - 0.5,))
@@ -685,10 +717,10 @@ def entry_points(dtype=np.float64, seed=0):
     simple("CP_NN_class_init_mask", lambda X, i, fm, m: CP_NN(R, n_iter_max=3, init=i, fixed_modes=fm, mask=m).fit_transform(X), lambda d: (d.X, (d.w, d.fs), [0], d.mask))
     simple("parafac2_initialize_decomposition", lambda sl, i: (initialize_decomposition(sl, R, init="svd"), initialize_decomposition(sl, R, init=i)), lambda d: (d.slices, p2t(d, d.w1)))
     simple("parafac2_initialize_decomposition_obj", lambda sl, i: initialize_decomposition(sl, R, init=i), lambda d: (tuple(d.slices), Parafac2Tensor(p2t(d, d.w1))))
-    simple("Parafac2_class_init_linesearch", lambda sl, i: Parafac2(R, n_iter_max=9, init=i, linesearch=True, normalize_factors=True, nn_modes=[0, 2], tol=0).fit_transform(sl), lambda d: (d.slices, p2t(d, d.w1)))
+    simple("Parafac2_class_init_linesearch", lambda sl, i: Parafac2(R, n_iter_max=9, init=i, linesearch=True, normalize_factors=True, nn_modes=[0, 2], tol=1e-13, return_errors=True).fit_transform(sl), lambda d: (d.slices, p2t(d, d.w1)))
     simple("parafac2_init_weights_list", lambda sl, i: parafac2(sl, R, n_iter_max=3, init=i, n_iter_parafac=2, return_errors=True), lambda d: (d.slices, list(p2t(d))))
     simple("SymmetricCP_class", lambda X: SymmetricCP(R, n_repeat=2, n_iteration=2).fit_transform(X), lambda d: (d.rs.rand(3, 3, 3).astype(dtype),))
-    simple("TensorRing_classes", lambda X, r: (TensorRingALS(r, n_iter_max=2, random_state=sd).fit_transform(X), TensorRingALSSampled(r, 10, n_iter_max=2, random_state=sd).fit_transform(X), TensorRing(r).fit_transform(X), tensor_ring(X, r, mode=1)), lambda d: (d.X, [2, 2, 2, 2]))
+    simple("TensorRing_classes", lambda X, r: (TensorRingALS(r, n_iter_max=2, random_state=sd).fit_transform(X), TensorRingALSSampled(r, 10, n_iter_max=2, random_state=sd).fit_transform(X), TensorRing(r).fit_transform(X), tensor_ring(X, [2, 1, 2, 2], mode=1)), lambda d: (d.X, [2, 2, 2, 2]))
     simple("TensorTrain_classes", lambda X, r, Y, r2: (TensorTrain(r).fit_transform(X), TensorTrainMatrix(r2).fit_transform(Y)), lambda d: (d.X, [1, 2, 2, 1], d.rs.rand(2, 3, 2, 3).astype(dtype), [1, 2, 1]))
     simple("Tucker_NN_classes_init", lambda X, i, sc, fm: (Tucker_NN([2, 2, 2], n_iter_max=2, init=i).fit_transform(X), Tucker_NN_HALS([2, 2, 2], n_iter_max=2, init=i, sparsity_coefficients=sc, fixed_modes=fm).fit_transform(X)), lambda d: (d.X, (d.core, d.tf), [0.1, None, 0.1], [1, 2]))
     simple("nn_tucker_init_obj_nonneg", lambda X, i: non_negative_tucker(X, [2, 2, 2], n_iter_max=3, init=i, tol=0), lambda d: (d.X, TuckerTensor((d.core, d.tf))))
@@ -699,7 +731,7 @@ def entry_points(dtype=np.float64, seed=0):
            lambda d: (TTTensor([d.rs.rand(1, 3, 2).astype(dtype), d.rs.rand(2, 3, 1).astype(dtype)]), d.Y2, d.Y2[::-1] + 0.1))
     simple("random_tensor_tt_matrix", lambda s, s2: (random_tensor(s, random_state=sd), random_tt_matrix(s2, 2, random_state=sd), random_tt_matrix(s2, [1, 2, 1], full=True, random_state=sd)), lambda d: ([3, 4], [2, 3, 2, 3]))
     simple("mttkrp_memory", lambda X, cp: (unfolding_dot_khatri_rao_memory(X, cp, 0), unfolding_dot_khatri_rao_memory(X, cp, 2)), lambda d: (d.X, (d.w, d.fs)))
-    simple("validate_constraints_options", lambda nn, l1, l2: validate_constraints(non_negative=nn, l1_reg=l1, l2_reg=l2, n_const=3), lambda d: ({0: True}, [0.1, 0.2, 0.3], None))
+    simple("validate_constraints_options", lambda nn, l1, l2: validate_constraints(non_negative=nn, l1_reg=l1, l2_reg=l2, n_const=3), lambda d: ({0: True}, {1: 0.1, 2: 0.2}, None))
     simple("validate_constraints_fail_two", lambda nn, l1: validate_constraints(non_negative=nn, l1_reg=l1, n_const=3), lambda d: ({0: True}, {0: 0.1}))
     simple("svd_helpers", lambda M: (truncated_svd(M, 2), svd_checks(M, 9), randomized_range_finder(M, 2, random_state=sd), make_svd_non_negative(M, *truncated_svd(M, 2)), make_svd_non_negative(M, *truncated_svd(M, 2), nntype="nndsvda")), lambda d: (d.M,))
     simple("svd_make_nonneg_user_USV", lambda M, U, S, V: make_svd_non_negative(M, U, S, V), lambda d: (d.M,) + tuple(np.asarray(x, dtype=dtype) for x in np.linalg.svd(d.M.astype(np.float64), full_matrices=False)))
@@ -707,12 +739,12 @@ def entry_points(dtype=np.float64, seed=0):
     simple("tr_ttm_objects", lambda f, g: (TRTensor(f).to_tensor(), TRTensor(f).to_unfolded(1), TRTensor(f).to_vec(), TTMatrix(g).to_tensor(), TTMatrix(g).to_matrix(), TTMatrix(g).to_vec(), tt_matrix_to_unfolded(g, 1), validate_tt_matrix_rank((2, 3, 2, 3), "same")), lambda d: (trf(d), ttm(d)))
     simple("tt_obj_inplace_flag", lambda f: (TTTensor(f, inplace=True).to_tensor(), TTMatrix(ttm_of(f), inplace=True).to_matrix()), lambda d: (ttf(d),))
     # other orders: the sweeps / list surgery run over 2 and 4 modes
-    simple("parafac_init_order2_fixed_mask", lambda X, i, fm, m: parafac(X, R, n_iter_max=3, init=i, fixed_modes=fm, mask=m), lambda d: (d.X[:, :, 0], (d.w, d.fs[:2]), [0], d.mask[:, :, 0]))
+    simple("parafac_init_order2_fixed_mask", lambda X, i, fm, m: parafac(X, R, n_iter_max=3, init=i, fixed_modes=fm, mask=m), lambda d: (d.X[:, :, 0], (d.w, d.fs[:2]), [0], d.mask[:, :, 0]), skel=PK)
     o4 = lambda d: (d.rs.rand(3, 2, 4, 3).astype(dtype), (d.w, [(d.rs.rand(s, R) + 0.1).astype(dtype) for s in (3, 2, 4, 3)]))
-    simple("parafac_init_order4_fixed_mask", lambda X, i, fm, m: parafac(X, R, n_iter_max=3, init=i, fixed_modes=fm, mask=m, tol=0), lambda d: o4(d) + ([1, 3], (d.rs.rand(3, 2, 4, 3) > 0.2).astype(dtype)))
-    simple("nn_parafac_hals_init_order4", lambda X, i, sc, fm: non_negative_parafac_hals(X, R, n_iter_max=2, init=i, sparsity_coefficients=sc, fixed_modes=fm), lambda d: o4(d) + ([0.1, None, 0.1, 0.1], [1]))
+    simple("parafac_init_order4_fixed_mask", lambda X, i, fm, m: parafac(X, R, n_iter_max=3, init=i, fixed_modes=fm, mask=m, tol=0), lambda d: o4(d) + ([1, 3], (d.rs.rand(3, 2, 4, 3) > 0.2).astype(dtype)), skel=PK)
+    simple("nn_parafac_hals_init_order4", lambda X, i, sc, fm: non_negative_parafac_hals(X, R, n_iter_max=2, init=i, sparsity_coefficients=sc, fixed_modes=fm), lambda d: o4(d) + ([0.1, None, 0.1, 0.1], [1]), skel=HK)
     simple("nn_parafac_init_order4_normalize", lambda X, i, fm: non_negative_parafac(X, R, n_iter_max=2, init=i, fixed_modes=fm, normalize_factors=True), lambda d: o4(d) + ((0, 2),))
-    simple("tucker_init_order2_mask", lambda X, i, m: tucker(X, [2, 2], n_iter_max=3, init=i, mask=m, tol=0), lambda d: (d.X[:, :, 0], (d.core[:, :, 0], d.tf[:2]), d.mask[:, :, 0]))
+    simple("tucker_init_order2_mask", lambda X, i, m: tucker(X, [2, 2], n_iter_max=3, init=i, mask=m, tol=0), lambda d: (d.X[:, :, 0], (d.core[:, :, 0], d.tf[:2]), d.mask[:, :, 0]), skel=TK)
     simple("nn_tucker_hals_init_order4", lambda X, i: non_negative_tucker_hals(X, [2, 2, 2, 2], n_iter_max=2, init=i), lambda d: (o4(d)[0], ((d.rs.rand(2, 2, 2, 2) + 0.1).astype(dtype), [(d.rs.rand(s, 2) + 0.1).astype(dtype) for s in (3, 2, 4, 3)])))
     simple("cp_normalize_flip_permute_order4", lambda cp: (cp_normalize(cp), cp_flip_sign(cp, mode=2), cp_to_tensor(cp), cp_mode_dot(cp, np.ones(4, dtype=dtype), 2, copy=True)), lambda d: (o4(d)[1],))
     # more option sets of the anchored decompositions with user initialisations
@@ -721,7 +753,7 @@ def entry_points(dtype=np.float64, seed=0):
     simple("parafac_init_normalize_fixed_callback", lambda X, i, fm: parafac(X, R, n_iter_max=3, init=i, fixed_modes=fm, normalize_factors=True, callback=lambda cp, e: None), lambda d: (d.X, (d.w, d.fs), [0, 1]))
     simple("parafac_init_orth_l2_notol", lambda X, i: parafac(X, R, n_iter_max=3, init=i, orthogonalise=2, l2_reg=0.3, tol=0), lambda d: (d.X, [d.w, d.fs]))
     simple("randomised_parafac_init_cptensor_fail_samples", lambda X, i: randomised_parafac(X, R, n_samples=0, n_iter_max=2, init=i, random_state=sd), lambda d: (d.X, cpt(d)))
-    simple("nn_parafac_hals_init_normalize_callback_fail", lambda X, i, sc: non_negative_parafac_hals(X, R, n_iter_max=3, init=i, sparsity_coefficients=sc, normalize_factors=True, callback=_Raise(2)), lambda d: (d.X, (d.w, d.fs), (0.1, 0.1, 0.1)))
+    simple("nn_parafac_hals_init_normalize_fail_cvg", lambda X, i, sc: non_negative_parafac_hals(X, R, n_iter_max=3, init=i, sparsity_coefficients=sc, normalize_factors=True, cvg_criterion="bogus"), lambda d: (d.X, (d.w, d.fs), (0.1, 0.1, 0.1)))
     simple("nn_parafac_hals_init_nnmodes_subset", lambda X, i, nn: non_negative_parafac_hals(X, R, n_iter_max=2, init=i, nn_modes=nn), lambda d: (d.X, cpt(d), {0, 2}))
     simple("active_set_warm_matrix_rowvec", lambda a, b, x: active_set_nnls(a, b, x), lambda d: (asb(d), asU(d), asx(d).reshape(1, 4)), skel=AK)
     simple("hals_nnls_warm_nonzero_rows_zero_start", lambda a, b, V: hals_nnls(a, b, V, n_iter_max=3, nonzero_rows=True, epsilon=1e-6), lambda d: (d.UtM, d.UtU, np.zeros((4, 3), dtype=dtype)), inplace=[2], skel=HN)
@@ -763,6 +795,8 @@ def case_literal(cid, r):
     heap, spec = r["heap"], r["spec"]
     if spec["skel"] is not None:
         kname, amap = spec["skel"]
+        if callable(kname):
+            kname = kname(spec["args"])
         refs = [heap.arg_refs[i] if i is not None and i < len(heap.arg_refs) else None for i in amap]
         flags = [(i in spec["inplace"]) for i in amap]
         k = f"(Some {kname})"
@@ -800,7 +834,32 @@ def plan(tier, rng):
     return cases
 
 
+def _load_known_with_local(prop):
+    """common.load_known reads only the merged /verif/known_findings.json (regenerated by the coordinator); until then the
+    entries of known_findings.d/C15.json are merged here (local helper, common.py is not edited)."""
+    import json, os
+    known = _orig_load_known(prop)
+    p = os.path.join(C.VERIF, "known_findings.d", f"{prop}.json")
+    if os.path.exists(p):
+        have = {k.get("id") for k in known}
+        known = known + [k for k in json.load(open(p)).get("findings", []) if k.get("property") == prop and k.get("id") not in have]
+    return known
+
+
+_orig_load_known = C.load_known
+
+
+def prw_caller_lists_rewritten(f):
+    """known finding: process_regularization_weights called with LISTS that contain None entries or leave a mode
+    unregularised - the function assigns into those very lists"""
+    return f["inputs"].get("config", "").startswith("process_regularization_weights") and "arg" in f["message"]
+
+
+CLASSIFIERS = {"prw_caller_lists_rewritten": prw_caller_lists_rewritten}
+
+
 def run(chk):
+    C.load_known = _load_known_with_local
     rng = random.Random(chk.seed)
     chk.build_proofs()
     C.reset_backends()
@@ -817,7 +876,8 @@ def run(chk):
         n_objs = len(r["heap"].objs)
         chk.count(key=(name, variant, dtype), nontrivial=n_objs > 0)
         chk.hist("outcome", r["outcome"]); chk.hist("variant", variant); chk.hist("dtype", dtype)
-        chk.hist("modelled", r["spec"]["skel"][0] if r["spec"]["skel"] else "footprint-only")
+        sk = r["spec"]["skel"]
+        chk.hist("modelled", (sk[0].__name__ if callable(sk[0]) else sk[0]) if sk else "footprint-only")
         chk.hist("heap_objects", min(n_objs, 20))
         chk.hist("changed_objects", len(r["changed"]))
         if r["spec"]["inplace"]:
@@ -851,7 +911,7 @@ def run(chk):
                        "skeletons are hand-written abstractions of third-order, one-option-set runs; they are tied to the code only through footprints"]
     chk.trusted = ["NumPy base-buffer identity (ndarray.base chain) as the notion of buffer identity",
                    "aliasing skeletons of Model/Effects.v are modelled, not extracted from the source"]
-    return chk.finish()
+    return chk.finish(CLASSIFIERS)
 
 
 def replay(payload):
